@@ -6,6 +6,7 @@ import sys
 sys.path.insert(0, os.path.join(os.path.dirname(os.path.abspath(__file__)), "..", "lib"))
 import vf
 import lanes
+import prog
 
 FT = [("f32", 4, 8, 23), ("f64", 8, 11, 52)]
 UN = ["neg", "abs", "sqrt", "not", "bitofsign", "sign", "signnz", "op-u", "op~", "op++", "op--", "op++post", "op--post", "op++old", "op--old", "op+u"]
@@ -115,6 +116,10 @@ def body(ctx):
     events, plan = lanes.record(ctx, "float", plan, "c02")
     ctx.log("events: %d" % len(events))
     lanes.validate(ctx, "T_Float.tla", events, "c02", plan_lines=plan)
+
+    # straight-line programs over live batch variables (spec/Prog.tla): every instruction reads what earlier instructions left in the
+    # registers; the trace specification carries the register file itself and binds only the result of each step
+    prog.run(ctx, "c02", prog.FTYPES, ctx.q(48, 600), ctx.q(12, 24))
     return dict(exhaustive=False,
                 rule="special-value lattice^2, class lattice (exponent x mantissa shape x sign), random bit patterns, moderate-magnitude randoms, near-cancellation and "
                      "fused-vs-unfused-sensitive triples for float and double on 22 architectures + scalar overloads; every lane judged in TLC by IEEE.tla "
